@@ -127,6 +127,21 @@ def render(items, L):
     return txt
 
 
+TRAILERS = [" // t", " //t", "\t/* b */", " /* b */ // t", " /**/", " /* two\n   lines */", "// t"]
+
+
+def decorate(text, rng, p=3):
+    """end-of-line comments after a ';' or '{' that ends a line: (1/p of those lines); the comment kinds a formatter or parser has to hand on to the next token"""
+    nl = "\r\n" if "\r\n" in text else "\n"
+    out = []
+    for line in text.split(nl):
+        st = line.rstrip(" \t")
+        if st and st[-1] in ";{" and not st.lstrip().startswith("//") and rng.below(p) == 0:
+            line = st + rng.choice(TRAILERS)
+        out.append(line)
+    return nl.join(out)
+
+
 def effective(items, L):
     """the AST the text of layout L actually states: one-line bodies carry no per-field / per-member comments"""
     if not L.oneline:
